@@ -82,9 +82,13 @@ func c09Build(cs []tcue, styled bool) (*astisub.Subtitles, []string) {
 		s.Styles["st"], s.Regions["rg"] = st, rg
 	}
 	someMetadata(s, len(cs))
+	salt := 0
+	if len(cs) > 0 {
+		salt = int(uint64(cs[0].S+3*cs[len(cs)-1].E+int64(len(cs))) % 16) // which cues are decorated how depends on the list
+	}
 	snaps := make([]string, len(cs))
 	for k, c := range cs {
-		it := decorate(textItem(time.Duration(c.S), time.Duration(c.E), c.T), k)
+		it := decorate(textItem(time.Duration(c.S), time.Duration(c.E), c.T), k+salt)
 		it.Index = k + 1
 		if styled && k%2 == 0 {
 			it.Style, it.Region = st, rg
